@@ -44,7 +44,11 @@ def triggers_of(src):
     if isinstance(src, dict):
         out = set()
         for k, v in src.items():
-            out.update(triggers_of(v))
+            t = set(triggers_of(v))
+            if k != "":
+                # whether the top-level script terminates is a property of the main file only
+                t -= {"main_terminates", "main_terminates_and_calls_function"}
+            out.update(t)
         if len(src) > 1:
             out.add("multi_module")
         return sorted(out)
@@ -144,19 +148,59 @@ def triggers_of(src):
                 t.add("void_function_ends_with_call_to_value_function")
     # a value function with exactly one call site, and that call site is inside another function: it is inlined
     # there and its result register gets a lifetime from source lines (definition .. call site)
-    sites = {}
+    calls_in = {}
     for k, v in fdefs.items():
-        for m in ast.walk(v):
-            if isinstance(m, ast.Call) and isinstance(m.func, ast.Name) and m.func.id in fdefs:
-                sites.setdefault(m.func.id, []).append(k)
+        calls_in[k] = [m.func.id for m in ast.walk(v) if isinstance(m, ast.Call) and isinstance(m.func, ast.Name) and m.func.id in fdefs]
+    top_calls = []
     for s_ in tree.body:
         if not isinstance(s_, ast.FunctionDef):
             for m in ast.walk(s_):
                 if isinstance(m, ast.Call) and isinstance(m.func, ast.Name) and m.func.id in fdefs:
-                    sites.setdefault(m.func.id, []).append("")
+                    top_calls.append(m.func.id)
+    reachable = set()
+    work = list(top_calls)
+    while work:
+        f_ = work.pop()
+        if f_ not in reachable:
+            reachable.add(f_)
+            work += calls_in.get(f_, [])
+    sites = {}
+    for f_ in top_calls:
+        sites.setdefault(f_, []).append("")
+    for k in reachable:
+        for f_ in calls_in.get(k, []):
+            sites.setdefault(f_, []).append(k)
     for k, where in sites.items():
         if len(where) == 1 and where[0] != "" and returns_value.get(k):
             t.add("value_function_with_single_call_site_inside_function")
+    # a function-local value bound outside two nested loops and read in the inner one (lifetime is widened to the
+    # innermost enclosing loop only)
+    for k, v in fdefs.items():
+        gl = set()
+        for m in ast.walk(v):
+            if isinstance(m, ast.Global):
+                gl.update(m.names)
+        locals_ = {a.arg for a in v.args.args}
+        for m in ast.walk(v):
+            if isinstance(m, ast.Name) and isinstance(m.ctx, ast.Store):
+                locals_.add(m.id)
+        locals_ -= gl
+        for l1 in ast.walk(v):
+            if not isinstance(l1, _LOOPS):
+                continue
+            bound_in_l1 = {m.id for m in ast.walk(l1) if isinstance(m, ast.Name) and isinstance(m.ctx, ast.Store)}
+            for l2 in ast.walk(l1):
+                if l2 is l1 or not isinstance(l2, _LOOPS):
+                    continue
+                reads = {m.id for m in ast.walk(l2) if isinstance(m, ast.Name) and isinstance(m.ctx, ast.Load)}
+                if (reads & locals_) - bound_in_l1:
+                    t.add("local_bound_outside_nested_loops_read_in_inner_loop")
+    # register-held reference id captured by a Stack object
+    for n in ast.walk(tree):
+        if isinstance(n, ast.Call) and isinstance(n.func, ast.Name) and n.func.id == "Stack":
+            for kw in n.keywords:
+                if kw.arg == "ref_id" and not isinstance(kw.value, ast.Constant):
+                    t.add("stack_object_from_register_ref_id")
     # tail-call candidates (last statement is a bare call of a user function) with another call / early return
     for k, v in fdefs.items():
         if not v.body:
